@@ -25,6 +25,15 @@ SRC = os.path.join(REPO, "src")
 CAPTURE = os.path.join(REPO, "tests", "test_files", "2838~aa~Walking 01.tdf")
 
 
+class LibraryFault(Exception):
+    """raised by harness helpers when what the library did can only be its own fault although the exception surfaces in harness code
+    (e.g. the gzip stream the library wrote into cannot be read back); reported as a violation, keyed by .key"""
+
+    def __init__(self, key, what):
+        super().__init__(what)
+        self.key = key
+
+
 class HarnessError(Exception):
     """Something is wrong with the machinery or its environment (exit 2, never VIOLATION)."""
 
